@@ -15,6 +15,8 @@ package main
 // decoder driven by Go's coverage-guided fuzzer (FuzzVerif_C19, run by ./check from a scratch cwd).
 
 import (
+	"sync"
+	"golang.org/x/crypto/bcrypt"
 	"bytes"
 	"crypto/sha1"
 	"encoding/base64"
@@ -67,6 +69,7 @@ func c19Configs(w *vfWorld, idp2 *vfIdP, htp string) []c19Cfg {
 		{Name: "legacy-headers-basic", Flags: []string{"--pass-access-token=true", "--set-xauthrequest=true", "--set-basic-auth=true", "--pass-basic-auth=true", "--basic-auth-password=pw", "--pass-user-headers=false", "--prefer-email-to-user=true"}},
 		{Name: "bypass+domains", Flags: []string{"--skip-auth-route=GET=^/public", "--skip-auth-route=!=^/priv", "--skip-auth-preflight=true", "--trusted-ip=10.0.0.0/8", "--trusted-ip=2001:db8::/32", "--whitelist-domain=.good.test", "--whitelist-domain=good.test:*", "--cookie-domain=proxy.test", "--cookie-domain=test", "--cookie-path=/", "--cookie-samesite=lax"}},
 		{Name: "upstreams", Flags: []string{"--upstream=" + w.Up.URL() + "/x/", "--upstream=static://202", "--upstream=file://" + w.Dir + "#/files/", "--pass-host-header=false", "--signature-key=sha1:secretkey", "--allow-query-semicolons=true"}},
+		{Name: "no-websockets", Flags: []string{"--proxy-websockets=false", "--htpasswd-file=" + htp}},
 		{Name: "authz", Flags: []string{"--email-domain=example.com", "--allowed-group=g1", "--cookie-refresh=1m", "--cookie-expire=2h", "--gcp-healthchecks=true", "--ready-path=/ready", "--ping-user-agent=pinger"}},
 		{Name: "minimal-cookie", Flags: []string{"--session-cookie-minimal=true", "--pass-access-token=false", "--cookie-samesite=strict", "--cookie-httponly=false", "--proxy-prefix=/oauth2"}},
 		{Name: "alpha-all-claims", Alpha: c19HeaderYAML(), Flags: append([]string{"--htpasswd-file=" + htp, "--skip-auth-route=^/public"}, bearer...)},
@@ -95,6 +98,23 @@ type c19Ctx struct {
 	SignedJunk []string // validly signed cookie values with hostile payloads
 	HeavyJunk  map[string]bool // those that make a decoder allocate megabytes: presented once each
 	W          *vfWorld
+}
+
+var (
+	c19BcryptOnce sync.Once
+	c19BcryptTab  []string
+)
+
+// c19Bcrypt: bcrypt (minimum cost) of "pw-<k>"
+func c19Bcrypt(k int) string {
+	c19BcryptOnce.Do(func() {
+		c19BcryptTab = make([]string, 13)
+		for i := range c19BcryptTab {
+			h, _ := bcrypt.GenerateFromPassword([]byte(fmt.Sprintf("pw-%d", i)), bcrypt.MinCost)
+			c19BcryptTab[i] = string(h)
+		}
+	})
+	return c19BcryptTab[k]
 }
 
 func c19SHA(pw string) string {
@@ -279,8 +299,11 @@ func c19Prepare(run *vfRun, w *vfWorld, idp2 *vfIdP, cfg c19Cfg, hub *vfRedisHub
 		vfB64([]byte(`{"alg":5}`)) + "." + vfB64([]byte(`{}`)) + ".x", vfB64([]byte(`[]`)) + "." + vfB64([]byte(`[]`)) + ".x", "eyJ" + strings.Repeat("A", 70000) + ".eyJ9.x",
 	}
 	b64 := base64.StdEncoding.EncodeToString
-	c.Basics = []string{b64([]byte("hu:hp")), b64([]byte("hu:wrong")), b64([]byte("nouser:x")), b64([]byte("nocolon")), b64([]byte(":")), b64([]byte("hu:")), b64([]byte(":hp")), "!!!notbase64", "", b64([]byte("hu:hp:extra")),
-		b64([]byte(c.Bearers[0] + ":")), b64([]byte(c.Bearers[0] + ":x-oauth-basic")), b64([]byte("x:" + c.Bearers[1])), b64([]byte(c.Bearers[7] + ":")), b64([]byte(strings.Repeat("u", 70000) + ":p")), b64([]byte("h\x00u:hp"))}
+	for k := 1; k <= 12; k++ {
+		c.Basics = append(c.Basics, b64([]byte(fmt.Sprintf("bu%d:pw-%d", k, k))), b64([]byte(fmt.Sprintf("bu%d:pw-%d", k, k))), b64([]byte(fmt.Sprintf("bu%d:wrong", k))))
+	}
+	c.Basics = append(c.Basics, b64([]byte("hu:hp")), b64([]byte("hu:wrong")), b64([]byte("nouser:x")), b64([]byte("nocolon")), b64([]byte(":")), b64([]byte("hu:")), b64([]byte(":hp")), "!!!notbase64", "", b64([]byte("hu:hp:extra")),
+		b64([]byte(c.Bearers[0] + ":")), b64([]byte(c.Bearers[0] + ":x-oauth-basic")), b64([]byte("x:" + c.Bearers[1])), b64([]byte(c.Bearers[7] + ":")), b64([]byte(strings.Repeat("u", 70000) + ":p")), b64([]byte("h\x00u:hp")))
 	c.SignedJunk = c19Junk(rand.New(rand.NewSource(run.Env.Seed*77+int64(len(cfg.Name)))), c.Secret, c.CookieName, cfg.Redis, run.Env.Pick(100, 600))
 	c.HeavyJunk = map[string]bool{}
 	for _, j := range c.SignedJunk { // measure: one decode each, sequentially
@@ -413,7 +436,7 @@ func c19Fields(c *c19Ctx, rng *rand.Rand) []c19Field {
 		{"xfh", c19FwdHost}, {"xfp", c19FwdProto}, {"xfu", c19FwdURI}, {"clientip", c19IPs}, {"accept", c19Accept}, {"remote", c19RemoteAddrs},
 		{"xarr", c19Rd}, {"form", []string{"username=hu&password=hp", "username=hu&password=hp&rd=//evil.test", "username=&password=", "username=%zz", "username=hu;password=hp", "rd=/x", strings.Repeat("a=b&", 20000), "\x00\x01", "username=" + strings.Repeat("u", 70000)}},
 		{"authq", []string{"allowed_groups=g1", "allowed_groups=,,", "allowed_emails=a@b", "allowed_email_domains=example.com,*.x", "allowed_email_domains=%zz", "allowed_groups=g1&allowed_groups=g2,", "allowed_email_domains=:", "allowed_email_domains=[::1]"}},
-		{"upgrade", []string{"websocket", "h2c", ""}},
+		{"upgrade", []string{"websocket", "h2c", "", "WebSocket", "websocket, h2c"}}, {"connection", []string{"Upgrade", "keep-alive, Upgrade", "upgrade", "close, Upgrade", "Upgrade, HTTP2-Settings", "keep-alive"}},
 	}
 }
 
@@ -480,7 +503,13 @@ func c19Build(c *c19Ctx, ch c19Choice) *vfReq {
 		}
 	}
 	if v, ok := ch["upgrade"]; ok && v != "" {
-		r.H("Connection", "Upgrade").H("Upgrade", v)
+		conn := "Upgrade"
+		if cv, ok := ch["connection"]; ok {
+			conn = cv
+		}
+		r.H("Connection", conn).H("Upgrade", v)
+	} else if cv, ok := ch["connection"]; ok {
+		r.H("Connection", cv).H("Upgrade", "websocket")
 	}
 	if v, ok := ch["form"]; ok {
 		r.WithBody("application/x-www-form-urlencoded", []byte(v))
@@ -546,7 +575,11 @@ func TestVerif_C19(t *testing.T) {
 	defer w.Close()
 	idp2 := vfNewIdP()
 	defer idp2.Close()
-	htp := w.File("htpasswd", "hu:"+c19SHA("hp")+"\nother:"+c19SHA("x")+"\n")
+	htpContent := "hu:" + c19SHA("hp") + "\nother:" + c19SHA("x") + "\n"
+	for k := 1; k <= 12; k++ { // bcrypt entries: verified on a slower path than the SHA ones; several users so that "first seen" happens under concurrency
+		htpContent += fmt.Sprintf("bu%d:%s\n", k, c19Bcrypt(k))
+	}
+	htp := w.File("htpasswd", htpContent)
 	w.File("a.txt", "file content")
 	cfgs := c19Configs(w, idp2, htp)
 	nRandom := run.Env.Pick(900, 8000)
@@ -567,7 +600,7 @@ func TestVerif_C19(t *testing.T) {
 			"xarr": {"/oauth2/start", "/oauth2/sign_out", "/x"}, "form": {"/oauth2/sign_in", "/x", "/oauth2/callback"}, "authq": {"/oauth2/auth"},
 			"xfh": {"/x", "/oauth2/start", "/oauth2/sign_out", "/oauth2/callback", "/oauth2/auth"}, "xfp": {"/x", "/oauth2/start"}, "xfu": {"/x", "/oauth2/auth", "/oauth2/start", "/oauth2/sign_out"},
 			"clientip": {"/x", "/oauth2/callback"}, "remote": {"/x", "/oauth2/callback"}, "host": {"/x", "/oauth2/start", "/oauth2/callback", "/oauth2/sign_out"},
-			"accept": {"/x", "/api/v1"}, "method": {"/x", "/oauth2/sign_in", "/oauth2/callback", "/oauth2/auth"}, "path": {""}, "upgrade": {"/x", "/public/a"},
+			"accept": {"/x", "/api/v1"}, "method": {"/x", "/oauth2/sign_in", "/oauth2/callback", "/oauth2/auth"}, "path": {""}, "upgrade": {"/x", "/public/a"}, "connection": {"/x", "/public/a"},
 		}
 		sessCtx := []string{"", c.Sess[0], c.Sess[1]}
 		rpOnly := map[string]bool{"clientip": true, "xfh": true, "xfp": true, "xfu": true, "remote": true, "host": true, "rd": true, "xarr": true, "path": true}
@@ -653,7 +686,8 @@ func TestVerif_C19(t *testing.T) {
 	c19ConfigSpace(run, w, htp)
 	run.Extra("phase_seconds", map[string]float64{"requests_grammar": t4.Sub(run.start).Seconds(), "odd_identities": t5.Sub(t4).Seconds(), "client_gives_up": t6.Sub(t5).Seconds(), "configuration_space": time.Since(t6).Seconds()})
 	run.Extra("configurations", len(cfgs))
-	run.RaceCheck("")
+	// a data race between request handlers is a latent crash (concurrent map access is a fatal error no recover() sees)
+	run.RaceCheck("c19:data-race-in-request-handling", "/repo/pkg/", "/repo/oauthproxy.go", "/repo/providers/", "/repo/validator.go")
 	run.Finish(20000, 150)
 }
 
